@@ -120,6 +120,8 @@ def run(rep, tier):
         fam_classes = list(FAMILY_CONFIRMS.get(key, []))
         if key.startswith("listing:"):
             fam_classes += [c for c in classes if c.startswith("list_objects_v2:")]
+        if key.startswith("transition:") or key.startswith("read:"):
+            fam_classes += list(classes)       # a stray, missing or misdirected effect shows in the histories
         for c in fam_classes:
             if c in classes:
                 used.add(c)
